@@ -6,6 +6,7 @@
   "absolute bit index = 8·(bytes dropped) + position in buffer;  buffer ++ unread input = remaining bytes".
 -/
 import MediaSan.Lemmas.BitBuf
+import MediaSan.Lemmas.BitTrace
 import MediaSan.Generated.Vp8lTables
 namespace MediaSan.Props.C19
 open MediaSan MediaSan.Vp8l
@@ -60,6 +61,29 @@ theorem C19_bitAt_agree (l : Bytes) (i : Nat) : bitAt (ByteArray.mk l.toArray) i
     rw [this, List.getElem?_eq_getElem h]
   · have hs : ¬ i / 8 < (ByteArray.mk l.toArray).size := by simpa [ByteArray.size] using h
     rw [if_neg hs, List.getElem?_eq_none (by omega)]
+
+/-- C19 for whole runs (what the property says): for EVERY capacity, input and sequence of reader operations that the
+    capacity can serve (fields of n ≤ 8·cap − 8 bits; codes no longer than 8·cap − 8 bits), the buffered reader returns
+    exactly the values the whole-string reader returns and reports the end of data at the same operation - wherever the
+    refills happen to fall.  `runBufOps` / `runIdealOps` (Vp8l/BitTrace.lean) are the two functions the driver
+    executes against the real `BitBufReader` for every generated operation sequence. -/
+theorem C19_trace (cap : Nat) (input : Bytes) (ops : List BOp) (hfit : ∀ op ∈ ops, op.fits cap) :
+    runBufOps ops (BitBuf.new cap input) = runIdealOps input ops 0 :=
+  runOps_refines ops (BitBuf.new cap input) input 0 (abs_new cap input) hfit
+
+/-- ... and for an ADAPTIVE client, which chooses each operation from the values read so far (a validator): same
+    values, same end-of-data verdict, for every strategy and any number of steps -/
+theorem C19_adaptive (cap : Nat) (input : Bytes) (next : List Nat → Option BOp) (fuel : Nat)
+    (hfit : ∀ hs op, next hs = some op → op.fits cap) :
+    runBufStrat next fuel (BitBuf.new cap input) [] = runIdealStrat input next fuel 0 [] :=
+  runStrat_refines next fuel (BitBuf.new cap input) input 0 (abs_new cap input) [] hfit
+
+-- Non-vacuity: a run of four fields over a 2-byte buffer (refills in between), ending past the end of data
+example : runBufOps [.read 3, .read 7, .read 8, .read 8, .read 8, .read 8] (BitBuf.new 2 [0xA5, 0x3C, 0xFF, 0x01, 0x80]) =
+    [some 5, some 20, some 207, some 127, some 0, none] := by decide
+example : ∀ op ∈ [BOp.read 3, .read 7, .read 8], op.fits 2 := by
+  intro op h; simp only [List.mem_cons, List.not_mem_nil, or_false] at h
+  rcases h with rfl | rfl | rfl <;> simp [BOp.fits]
 
 -- Non-vacuity: a 2-byte buffer over a 5-byte stream, reading 3 + 7 + 9 bits across refills
 example : ((BitBuf.new 2 [0xA5, 0x3C, 0xFF, 0x01, 0x80]).read 3).map (·.1) = some 5 := by decide
